@@ -3,7 +3,6 @@ package main
 import (
 	"fmt"
 	"go/constant"
-	"go/token"
 	"go/types"
 	"strings"
 )
@@ -453,30 +452,50 @@ func (c *cenv) binop(x *CExpr) (Term, error) {
 }
 
 func (c *cenv) goType(src string) (types.Type, error) {
-	pkg := c.pkg
-	if pkg == nil {
-		pkg = c.U.P.Bexpr.Pkg
-	}
-	// resolve pkg.Name against both packages and their imports
-	tv, err := types.Eval(c.U.P.Fset, pkg, token.NoPos, src)
-	if err == nil && tv.Type != nil {
-		return tv.Type, nil
-	}
-	for _, p := range []*types.Package{c.U.P.Bexpr.Pkg, c.U.P.Grammar.Pkg} {
-		tv, err2 := types.Eval(c.U.P.Fset, p, token.NoPos, src)
-		if err2 == nil && tv.Type != nil {
-			return tv.Type, nil
+	src = strings.TrimSpace(src)
+	switch {
+	case strings.HasPrefix(src, "*"):
+		t, err := c.goType(src[1:])
+		if err != nil {
+			return nil, err
 		}
-		// unqualified grammar names from bexpr and vice versa
+		return types.NewPointer(t), nil
+	case strings.HasPrefix(src, "[]"):
+		t, err := c.goType(src[2:])
+		if err != nil {
+			return nil, err
+		}
+		return types.NewSlice(t), nil
 	}
-	// try stripping a "grammar." qualifier when evaluating inside grammar
-	if strings.Contains(src, "grammar.") {
-		tv, err2 := types.Eval(c.U.P.Fset, c.U.P.Grammar.Pkg, token.NoPos, strings.ReplaceAll(src, "grammar.", ""))
-		if err2 == nil && tv.Type != nil {
-			return tv.Type, nil
+	if o := types.Universe.Lookup(src); o != nil {
+		if tn, ok := o.(*types.TypeName); ok {
+			return tn.Type(), nil
 		}
 	}
-	return nil, fmt.Errorf("cannot resolve type %q: %v", src, err)
+	pkgs := []*types.Package{c.U.P.Bexpr.Pkg, c.U.P.Grammar.Pkg}
+	if c.pkg != nil {
+		pkgs = append([]*types.Package{c.pkg}, pkgs...)
+	}
+	if i := strings.Index(src, "."); i >= 0 {
+		pn, name := src[:i], src[i+1:]
+		for _, p := range pkgs {
+			cands := append([]*types.Package{p}, p.Imports()...)
+			for _, q := range cands {
+				if q.Name() == pn {
+					if o, ok := q.Scope().Lookup(name).(*types.TypeName); ok {
+						return o.Type(), nil
+					}
+				}
+			}
+		}
+		return nil, fmt.Errorf("cannot resolve type %q", src)
+	}
+	for _, p := range pkgs {
+		if o, ok := p.Scope().Lookup(src).(*types.TypeName); ok {
+			return o.Type(), nil
+		}
+	}
+	return nil, fmt.Errorf("cannot resolve type %q", src)
 }
 
 func (c *cenv) tyarg(x *CExpr) (Term, error) {
